@@ -366,6 +366,20 @@ func (c *Ctx) visitSym(fr *Frame, n ast.Node) string {
 				return kind + "(tickers)"
 			}
 		}
+	case *ast.UnaryExpr:
+		// a receive from the dispatcher's exit channel (directly or through a local copy of the field) joins it
+		if x.Op == token.ARROW && R.FDispDone != "" {
+			if selField(info, x.X) == R.FDispDone {
+				return "joindisp"
+			}
+			if id, ok := ast.Unparen(x.X).(*ast.Ident); ok {
+				if obj := info.ObjectOf(id); obj != nil {
+					if all, n := assignedOnlyFrom(fr.Fn, obj, func(rhs ast.Expr, idx, cnt int) bool { return selField(info, rhs) == R.FDispDone }); all && n > 0 {
+						return "joindisp"
+					}
+				}
+			}
+		}
 	case *ast.GoStmt:
 		if lit, ok := ast.Unparen(x.Call.Fun).(*ast.FuncLit); ok {
 			switch c.P.byLit[lit] {
@@ -569,7 +583,7 @@ func (c *Ctx) emitsMode(f *Func, sync bool) map[string]bool {
 						out[s] = true
 					}
 				}
-			case *ast.SendStmt, *ast.AssignStmt, *ast.GoStmt:
+			case *ast.SendStmt, *ast.AssignStmt, *ast.GoStmt, *ast.UnaryExpr:
 				if s := c.visitSym(fr, x); s != "" {
 					out[s] = true
 					out[coarse(s)] = true
